@@ -22,7 +22,7 @@ ASSUMPTIONS = [
     "tolerances relative to max(1e-10, 10 tol) * max(1, |M|) because cola clips normalisations at tol/2",
     "the grade g is computed densely with threshold 1e-11; cases whose (g+1)-th Krylov vector has relative norm within [1e-13, 100 tol] are borderline and counted inconclusive for the early-termination checks",
 ]
-SUBS = ["factorisation", "factorisation", "factorisation", "eigs", "batched"]
+SUBS = ["factorisation", "factorisation", "factorisation", "eigs", "batched", "alg_object"]
 AVOID = set()
 
 
@@ -40,6 +40,8 @@ def cases(draw, tier):
     op = draw(st.sampled_from(["dense", "dense", "dense", "diag", "eye", "smul", "kron"]))
     if op == "kron" and n < 4:
         op = "dense"
+    if sub == "batched" and n >= 4 and draw(st.integers(1, 4)) == 1:
+        op = "blocks"  # block diagonal of two Hermitian blocks on very different scales, batch members living in different blocks
     return {"sub": sub, "n": n, "op": op, "cplx": draw(st.booleans()),
             "spec": draw(st.sampled_from(["simple", "indefinite", "repeated", "clustered", "singular"])), "cstart": draw(st.integers(1, 5)) == 1,
             "seed": draw(st.integers(0, 10**6)), "start": draw(st.sampled_from(["generic", "generic", "eigvec", "grade"])),
@@ -47,7 +49,7 @@ def cases(draw, tier):
             "batch": draw(st.integers(2, 3)), "mixed": draw(st.booleans()),
             "vscale_exp": draw(st.sampled_from([0, 0, 0, 0, -20, -12, -30, 6, 12])),
             # tol = 0 (never stop early): only with generic start vectors, whose Krylov space is all of C^n
-            "tol_zero": draw(st.integers(1, 5)) == 1}
+            "tol_zero": draw(st.integers(1, 5)) == 1, "pbar": draw(st.integers(1, 8)) == 1}
 
 
 def strategy(tier):
@@ -72,6 +74,21 @@ def build(case):
     else:
         lam = np.concatenate([1.0 + 1e-6 * rng.random(n // 2), 3.0 + 1e-6 * rng.random(n - n // 2)])
     op = case["op"]
+    if op == "blocks":
+        h = n // 2
+        M1, _ = KR.hermitian(1.0 + np.arange(h) + 0.3 * rng.random(h), seed, cplx)
+        M2, _ = KR.hermitian(1.0 + np.arange(n - h) + 0.3 * rng.random(n - h), seed + 1, cplx)
+        sc = 10.0 ** -float(2 + seed % 5)
+        M = np.zeros((n, n), dtype=M1.dtype)
+        M[:h, :h], M[h:, h:] = M1, sc * M2
+        A = cola.SelfAdjoint(cola.ops.Dense(M))
+        vs = []
+        for j in range(case["batch"]):
+            v = np.zeros(n, dtype=M.dtype)
+            blk = slice(0, h) if j % 2 == 0 else slice(h, n)
+            v[blk] = rng.standard_normal(len(range(*blk.indices(n)))) + (1j * rng.standard_normal(len(range(*blk.indices(n)))) if cplx else 0)
+            vs.append(v)
+        return A, M, vs
     if op == "dense":
         M, Q = KR.hermitian(lam, seed, cplx)
         A = cola.SelfAdjoint(cola.ops.Dense(M))
@@ -210,8 +227,37 @@ def check(case, out):
             out.fail(sub, site, oracle.exc_man(e), e)
             return None
 
+    if sub == "alg_object":
+        # the public algorithm object Lanczos(max_iters, tol, key)(A) with its default (keyed) start vector, after the same
+        # object has been applied to a smaller operator: the factorisation predicates hold with v := the start it drew
+        L = cola.linalg
+        algo = L.Lanczos(max_iters=mi, tol=max(tol, 1e-12), key=case["seed"] % 1000 + 1)
+        if n >= 3:
+            call(lambda: algo(cola.SelfAdjoint(cola.ops.Dense(np.diag(np.arange(1.0, n - 1.0)) + 0.5 * np.ones((n - 2, n - 2))))))
+        res = call(lambda: algo(A))
+        if res is None:
+            return
+        Q, T, info = res
+        Qd = np.asarray(Q.to_dense())
+        if Qd.shape[1] == 0:
+            out.fail(sub, site, "no_columns", "")
+            return
+        cols = verify(out, sub, site, M, Qd[:, 0].copy(), Q, T, mi, max(tol, 1e-12), span_upto=2 if case["spec"] == "clustered" else 6)
+        gq = KR.krylov_basis(lambda q: M @ q, Qd[:, 0], n + 1, tol=max(1e-5, 100 * tol)).shape[1]
+        if not out.failures and case["spec"] in ("simple", "indefinite") and case["op"] == "dense" and cols < min(mi, gq):
+            out.fail(sub, site, "too_few_columns", f"{cols} columns although min(max_iters={mi}, Krylov dimension {gq}) are due (n={n})")
+        return
+
     if sub == "factorisation":
-        res = call(lambda: lanczos(A, v.copy(), max_iters=mi, tol=tol))
+        if case.get("pbar"):  # the progress-bar option runs the same iteration through another loop wrapper
+            out.label("pbar")
+
+            def with_bar():
+                with oracle.quiet():
+                    return lanczos(A, v.copy(), max_iters=mi, tol=tol, pbar=True)
+            res = call(with_bar)
+        else:
+            res = call(lambda: lanczos(A, v.copy(), max_iters=mi, tol=tol))
         if res is None:
             return
         Q, T, info = res
@@ -297,6 +343,16 @@ def check(case, out):
                     out.fail(sub, site, "batched_not_orthonormal", f"member {j} (grade {grades[j]}, {int(nz.sum())} non-zero columns): |Q^H Q - I| = {e:.3e}")
                     return
                 k = int(nz.sum())
+                # the stopping test of a member is relative to its own first off-diagonal entry: where the member's own
+                # (reference) Lanczos coefficients stay above 10 tol of that scale, it must not have been stopped
+                Vj = KR.krylov_basis(lambda q: M @ q, vs[j], min(mi, n) + 1, tol=1e-11)
+                Tj = Vj.conj().T @ M @ Vj
+                subd = np.abs(np.diag(Tj, -1))
+                due = min(mi, Vj.shape[1])
+                ref0 = max(subd[0] if subd.size else 0.0, abs(Tj[0, 0]))
+                if subd.size and due >= 2 and np.min(subd[:due - 1]) > 10 * max(tol, 1e-12) * ref0 and k < due:
+                    out.fail(sub, site, "batched_stopped_early", f"member {j}: {k} non-zero columns, {due} are due (its own coefficients {subd[:due - 1].min():.2e} vs scale {ref0:.2e}, tol={tol:g})")
+                    return
                 if np.all(nz[:k]) and k >= 1:
                     P = Qn.conj().T @ M @ Qn
                     e = np.abs(P - Td[j][:k, :k]).max()
